@@ -493,6 +493,9 @@ class Module(HasAccessibles):
             accessible.export = False
         accessible.fixExport()
         if accessible.export:
+            other = self.accessiblename2attr.get(accessible.export, name)
+            if other != name:
+                self.errors.append(f'{name}: the exported name {accessible.export!r} is used for {other!r} already')
             self.accessiblename2attr[accessible.export] = name
         if isinstance(accessible, Parameter):
             if cfg and 'readonly' in cfg and not accessible.readonly and not hasattr(self, 'write_' + name):
